@@ -6,6 +6,7 @@ import (
 	"os"
 	"strings"
 
+	"github.com/btcsuite/btcd/btcutil"
 	"github.com/ethereum/go-ethereum/core/types/goattypes"
 	bitcointypes "github.com/goatnetwork/goat/x/bitcoin/types"
 	relayertypes "github.com/goatnetwork/goat/x/relayer/types"
@@ -205,6 +206,26 @@ func c03Monitor(b *bridgeHist) {
 // another magic prefix; they pay the relayer key hash but must never be credited.
 func (b *bridgeHist) mineMalformedV1() {
 	key := b.keys[0]
+	for _, k := range b.keys {
+		if sk, isSchnorr := k.Key.(*relayertypes.PublicKey_Schnorr); isSchnorr {
+			// version-1 claims under a Schnorr key (the version exists for ECDSA keys only): key-hash outputs over what a
+			// careless reading of the key could hash - nothing at all, the x-only key, the key with an even-Y prefix - each
+			// followed by a proper data output
+			evm := b.newEvm()
+			data := append([]byte{0x6a, 0x18}, append(append([]byte{}, b.magic...), evm...)...)
+			var txs []*wireMsgTx
+			txs = append(txs, b.bc.CoinbaseTx(b.bc.Tip+1))
+			for _, pre := range [][]byte{nil, sk.Schnorr, append([]byte{0x02}, sk.Schnorr...)} {
+				txs = append(txs, b.bc.FillerTx(wireOut(50_000, append([]byte{0x00, 0x14}, btcutil.Hash160(pre)...)), wireOut(0, data)))
+			}
+			blk := b.bc.Mine(txs)
+			for i := 1; i < len(txs); i++ {
+				b.malformed = append(b.malformed, &depTruth{Block: blk, Index: i, Raw: blk.Raw[i], Txid: blk.Txids[i], Vout: 0, Value: 50_000, Version: 1, Key: k, Evm: evm, Malformed: true, Layout: 300 + i})
+			}
+			b.lh.c.Count("version_1_claims_under_a_schnorr_key_mined", len(txs)-1)
+			break
+		}
+	}
 	if _, isSchnorr := key.Key.(*relayertypes.PublicKey_Schnorr); isSchnorr {
 		return
 	}
